@@ -211,6 +211,8 @@ def search(ctx):
         c["settings"].pop("myst_words_per_minute", None)
         if "paragraph" in str(c["settings"].get("myst_disable_syntax")) or "words_per_minute" in c["text"] or "disable_syntax" in c["text"]:
             continue
+        if "lipsum" in c["text"] or "|random" in c["text"]:
+            continue  # Jinja's lipsum() / random filter are random by definition: the document asks for it
         items.append(c)
     by_id = {it["id"]: it for it in items}
     ids = list(by_id)
@@ -228,7 +230,7 @@ def search(ctx):
         meta.append(("fresh", [i]))
     # regression history of the repaired Include.option_spec leak + long random histories
     for fixed in (["myst-include", "rst-include-offset"], ["default-role-myst", "default-role-use"], ["role-def-myst", "role-use"],
-                  ["role-def-rst", "role-use"]):
+                  ["role-def-rst", "role-use"], ["lang-bogus", "lang-bogus-2"]):
         jobs.append([by_id[i] for i in fixed])
         meta.append(("hist", fixed))
     n_hist = ctx.budget(48, 600, 300)
@@ -307,8 +309,8 @@ def search_sphinx(ctx):
     rng = ctx.rng
     n_proj = ctx.budget(3, 24, 12)
     jobs, meta = [], []
-    for p in range(n_proj):
-        proj = c15_items.gen_project(rng, amsmath=(p % 3 == 2))
+    for p in range(-1, n_proj):
+        proj = c15_items.role_project() if p < 0 else c15_items.gen_project(rng, amsmath=(p % 3 == 2))
         names = list(proj["files"])
         shuffled = names[:]
         rng.shuffle(shuffled)
@@ -350,6 +352,8 @@ def search_sphinx(ctx):
                 reported.add(sig)
                 ctx.fail(sig, {"kind": "sphinx", "project": proj, "variant": variant}, f"sorted warnings of the {variant} build differ from the serial build",
                          expected=b["warnings"][:30], observed=r["warnings"][:30])
+        if r["warnings"] != b["warnings"]:
+            continue  # the HTML differences that come with different warnings are the same defect
         for fn in sorted(set(b["html"]) | set(r["html"])):
             if b["html"].get(fn) != r["html"].get(fn):
                 a_l, b_l = (b["html"].get(fn) or "").splitlines(), (r["html"].get(fn) or "").splitlines()
